@@ -189,8 +189,9 @@ func runC11(r *core.Run) {
 			pb.Keygen.Base = b.Keygen.Base
 			pb.Disk.FailObject = w.Object
 			ppre := pb.Disk.Snapshot()
-			err, _ := pb.Bootstrap(BootArgs{SignCN: bootCN})
-			r.Eventf("bootstrap order=%d unwritable %s -> %s, durable: %s", order, w.Object, errClass(err, false), writeNames(pb.Disk.Log))
+			pkg := r.Bool("unwritable-bootstrap-keep-going")
+			err, _ := pb.Bootstrap(BootArgs{SignCN: bootCN, Flags: Flags{KeepGoing: pkg}})
+			r.Eventf("bootstrap order=%d (kg=%v) unwritable %s -> %s, durable: %s", order, pkg, w.Object, errClass(err, false), writeNames(pb.Disk.Log))
 			checkPrefixes(r, ppre, pb.Disk.Log, fmt.Sprintf("bootstrap/order=%d/unwritable=%s", order, objKind(w.Object)), hist)
 		}
 		if order == keep {
@@ -230,7 +231,7 @@ func runC11(r *core.Run) {
 			// half of the time one long-lived process performs this rotation and the next one
 			lw.Persist = r.Bool("lost-write-long-lived")
 			ra3 := ra
-			ra3.Overwrite = true
+			ra3.Overwrite, ra3.KeepGoing = true, r.Chance(30, "lost-write-keep-going")
 			err, _ := lw.Rotate(ra3)
 			r.Eventf("lost-write #%d (long-lived=%v): rotate -> %s, durable writes: %s", j, lw.Persist, errClass(err, false), writeNames(lw.Disk.Log))
 			checkPrefixes(r, pre, lw.Disk.Log, fmt.Sprintf("rotate/lost-write@%d", j), hist)
@@ -254,7 +255,7 @@ func runC11(r *core.Run) {
 			pw.Disk = pre.Snapshot()
 			pw.Disk.FailObject = w.Object
 			ra6 := ra
-			ra6.Overwrite = true
+			ra6.Overwrite, ra6.KeepGoing = true, r.Bool("unwritable-keep-going")
 			err, _ := pw.Rotate(ra6)
 			r.Eventf("rotate with %s unwritable -> %s, durable writes: %s", w.Object, errClass(err, false), writeNames(pw.Disk.Log))
 			checkPrefixes(r, pre, pw.Disk.Log, fmt.Sprintf("rotate/unwritable=%s", objKind(w.Object)), hist)
@@ -269,6 +270,7 @@ func runC11(r *core.Run) {
 			plan := seams.NewPlanNone(r)
 			plan.Mode, plan.K, plan.Kind = 1, r.Intn(40, "kg-fault-call"), seams.ErrBefore
 			kg.Plan, kg.Decorate = plan, true
+			kg.Disk.Plan = plan // the store's calls are numbered seam calls of the same plan
 			ra5 := ra
 			ra5.KeepGoing, ra5.Overwrite = true, r.Bool("kg-overwrite")
 			err, _ := kg.Rotate(ra5)
